@@ -292,6 +292,12 @@ def make_case(i):
             for _k in range(n):
                 a, b = rnd.choice(TAGS), rnd.choice(TAGS + [(9, 9)])
                 mp[a] = b
+            if rnd.random() < 0.5:
+                # a larger map (the table grows several times while it is filled): entries for tags nobody uses, interleaved at random
+                extra = [((100 + q_, q_ % 3), (200 + q_, 0)) for q_ in rnd.sample(range(40), rnd.randrange(3, 18))]
+                items_ = list(mp.items()) + extra
+                rnd.shuffle(items_)
+                mp = dict(items_)
             toks = []
             for a, b in mp.items():
                 toks += [a[0], a[1], b[0], b[1]]
